@@ -167,6 +167,7 @@ Inductive uop :=
 | UUdpSendBytes (s : Z) (data : list Z) (dst : endpoint)
 | URslvDestroy (r : Z)
 | UUdpWaitWrite (s h : Z)
+| UTcpMove (s : Z)                                  (* tcp::socket(std::move(old)): same socket, new object *)
 | UTcpWriteBytes (s : Z) (data : list Z) (h : Z)
 | UTcpReadRaw (s bufsize h : Z) (loop : bool).     (* loop: re-issued after every successful completion *)                    (* async_read_some whose handler also reports the bytes *)   (* async_write_some of explicit bytes *)                 (* verification hook: simulation::verif_set_next_bind_port *)
 
